@@ -431,6 +431,7 @@ def docExceptions : List ((Str × Str) × (Option Str × List Str)) := [
   (("apt.Package".toList, "md5sum".toList), (some "MD5sum".toList, [])),
   (("apt.Package".toList, "sha256".toList), (some "SHA256".toList, [])),
   (("apt.Package".toList, "tags".toList), (some "{tag}".toList, [])),
+  (("apt.Release".toList, "no_support_for_architecture_all".toList), (some "No-Support-for-Architecture-all".toList, [])),
   (("apt.Release".toList, "checksums_md5".toList), (some "MD5Sum".toList, [])),
   (("apt.Release".toList, "checksums_sha1".toList), (some "SHA1".toList, [])),
   (("apt.Release".toList, "checksums_sha256".toList), (some "SHA256".toList, [])),
@@ -449,6 +450,7 @@ def docExceptions : List ((Str × Str) × (Option Str × List Str)) := [
   (("copyright.LicenseParagraph".toList, "name".toList), (some "License".toList, [])),
   (("copyright.LicenseParagraph".toList, "text".toList), (some "License".toList, [])),
   (("dep3.PatchHeader".toList, "author".toList), (some "Author".toList, ["From".toList])),
+  (("dep3.PatchHeader".toList, "reviewed_by".toList), (some "Reviewed-by".toList, [])),
   (("dep3.PatchHeader".toList, "bugs".toList), (none, [])),
   (("dep3.PatchHeader".toList, "vendor_bugs".toList), (none, [])),
   (("dep3.PatchHeader".toList, "upstream_bug".toList), (some "Bug".toList, [])),
